@@ -105,7 +105,10 @@ def check_config(cfg, numeric: dict, same, tag_eq, symbolic: bool):
         src = zs if var == "z" else ws
         nulls = set(nulls) | set(range(off)) | {r + off for r in src if r + off < N}
     kept = [k for k in range(N) if k not in nulls]
-    mm = F.get_model_matrix(df, context=ctx, output=out, **mkw)
+    reported: set = set()  # an empty set handed in is how a caller collects the jointly dropped rows
+    mm = F.get_model_matrix(df, context=ctx, output=out, drop_rows=reported, **mkw)
+    if {int(r) for r in reported} != {int(r) for r in nulls}:
+        problems.append(("reported-drop-set", f"the (initially empty) drop set handed to the joint build ends as {sorted(int(r) for r in reported)}, the jointly dropped rows are {sorted(nulls)}"))
     if skeleton(mm) != skeleton(F):
         problems.append(("shape", f"result shape {skeleton(mm)} != formula shape {skeleton(F)}"))
         return problems, claims
